@@ -317,6 +317,12 @@ WHAT = {
 }
 
 
+F13_WHAT = ("a delegated debit that revm does not journal escapes the reserve: revm's transfer_loaded debits the sender, "
+            "finds that the credit overflows the receiver (balance U256::MAX) and returns OverflowPayment without restoring "
+            "the sender and without a journal entry; the reserve scans journal entries, sees no debit, lets the transaction "
+            "stand, and the delegated account's later transaction (fundable at block start) is skipped for lack of funds")
+
+
 def run(ctx):
     if ctx.replay:
         # a replay file records the seed that generated the failing case; re-run deterministically
@@ -332,6 +338,19 @@ def run(ctx):
     counts = dict(planner=3000 if ctx.quick else 120000, journal=4000 if ctx.quick else 200000, rule=6000 if ctx.quick else 250000, e2e=700 if ctx.quick else 30000)
     diffs = {k: differential(ctx, k, bins["reserve"], model, counts[k]) for k in KINDS}
     corr_ok = all(d["first_diff"] is None for d in diffs.values())
+
+    # finding F13: directed reproduction (`reserve f13`)
+    rc13, out13 = core.sh([bins["reserve"], "f13"], timeout=300)
+    f13_lines = [l[:400] for l in out13.splitlines() if l.startswith("F13")]
+    for l in f13_lines:
+        core.log(l)
+    if rc13 not in (0, 10):
+        raise RuntimeError("reserve f13 failed (rc=%s): %s" % (rc13, out13[-2000:]))
+    if rc13 == 10:
+        if any(k.get("id") == "F13" for k in ctx.known_findings()):
+            ctx.known_finding(F13_WHAT)
+        else:
+            ctx.violation(F13_WHAT, dict(witness=f13_lines, seed=ctx.seed, replay_cmd="target/release/reserve f13"), True)
 
     if not proof["ok"] or not corr_ok:
         broken = list(proof["problems"]) if not proof["ok"] else []
